@@ -119,25 +119,45 @@ class Sched(object):
 
 
 class ShimLock(object):
-    def __init__(self, sched, registry):
+    """threading.Lock (or, with reentrant=True, threading.RLock) whose operations are yield points."""
+
+    def __init__(self, sched, registry, reentrant=False):
         self.sched = sched
         self.held = False
+        self.owner = None
+        self.count = 0
+        self.reentrant = reentrant
         self.name = None        # assigned after construction by introspection
         registry.append(self)
 
+    def blocks(self, thread_name):
+        """would an acquire by this controlled thread have to wait?"""
+        return self.held and not (self.reentrant and self.owner == thread_name)
+
     def acquire(self, blocking=True, timeout=-1):
         self.sched.announce(("Acq", self))
-        if self.held:
+        me = self.sched.controlled()
+        if self.blocks(me):
             # the scheduler only grants an enabled acquire; reaching this means it was forced
             raise RuntimeError("shim: acquire of a held mutex was granted")
         self.held = True
+        self.owner = me
+        self.count += 1
         return True
 
     def release(self):
         self.sched.announce(("Rel", self))
         if not self.held:
             raise RuntimeError("release unlocked lock")
+        if self.reentrant:
+            if self.owner != self.sched.controlled():
+                raise RuntimeError("cannot release un-acquired lock")       # RLock: only the owner may release
+            self.count -= 1
+            if self.count:
+                return
+        self.count = 0
         self.held = False
+        self.owner = None
 
     __enter__ = acquire
 
@@ -145,6 +165,8 @@ class ShimLock(object):
         self.release()
 
     def locked(self):
+        # an observation of shared state: another thread may run between this answer and whatever is done with it
+        self.sched.announce(("Obs", self))
         return self.held
 
 
@@ -157,6 +179,14 @@ class ShimThreading(object):
 
     def Lock(self):
         return ShimLock(self.sched, self.locks)
+
+    def RLock(self):
+        return ShimLock(self.sched, self.locks, reentrant=True)
+
+    def __getattr__(self, name):
+        # anything else (current_thread, get_ident, ...) is the real module's; blocking primitives other than Lock/RLock are not
+        # modelled and would show up as a stuck scheduler (machinery failure), never as a verdict
+        return getattr(_threading, name)
 
 
 class YieldingAttr(object):
